@@ -152,6 +152,13 @@ def gen(run):
     for hx in ("0", "FF", "7FFF", "8000", "FFFF"):
         cases.append(("filter", (str(int(hx, 16)), float(int(hx, 16)))))
     cases.append(("filter", ("", 0.0)))
+    # raw digit strings (a quoted DATA item, or a string the program itself hands to the filter): every one-character
+    # digit and a few longer ones -- "anything else" in the helper's contract is its numeric value
+    raw = [str(d) for d in range(10)] + ["10", "19", "90", "99", "-9", "-1", "00012", "123456"]
+    for t in raw:
+        if t not in seen:
+            seen.add(t)
+            cases.append(("filter", (t, float(t))))
     run.states += len(seen) + 6
     run.transitions += len(seen) + 6
     return cases
